@@ -326,6 +326,29 @@ class KCache:
 KCACHE = KCache()
 
 
+_PROBE = {"installed": False, "seen": 0}
+
+
+def install_class_state_probe():
+    """invariant at a hook: every time the decompiler writes a statement, the class-level defaults (which all instances would
+    share) are still empty - also while a call is in progress, not only after it"""
+    if _PROBE["installed"]:
+        return
+    _PROBE["installed"] = True
+    from explorerscript.ssb_converting.ssb_decompiler import ExplorerScriptSsbDecompiler as D
+
+    orig = D.write_stmnt
+
+    def write_stmnt(self, *a, **kw):
+        d = D.__dict__
+        if d.get("labels_already_printed") or d.get("forever_start_handler_stack"):
+            _PROBE["seen"] += 1
+        return orig(self, *a, **kw)
+
+    write_stmnt.__wrapped__ = orig
+    D.write_stmnt = write_stmnt
+
+
 def class_level_state_problems():
     """class-level mutable defaults that must never be written through the class (they would be shared by all instances)"""
     from explorerscript.ssb_converting.ssb_decompiler import ExplorerScriptSsbDecompiler as D
@@ -335,6 +358,9 @@ def class_level_state_problems():
         v = D.__dict__.get(name)
         if v:
             out.append((name, repr(v)[:100]))
+    if _PROBE["seen"]:
+        out.append(("non-empty-while-a-statement-was-written", str(_PROBE["seen"])))
+        _PROBE["seen"] = 0
     return out
 
 
